@@ -28,6 +28,9 @@
      C06_vm_register_shares     RegisterUpvalue(index, local): an open upvalue of the slot is reused - two
                                 closures that capture the same live local hold the same upvalue address - ;
                                 otherwise one is allocated and inserted in order.
+     C06_vm_quiet_instructions  no other instruction (all but CallNative, Return, RegisterUpvalue, CloseUpvalue and
+                                CallFunction of a native value) touches the list or the state of an upvalue object;
+     C06_vm_second_capture_shares  so a second capture of a still-open local gets the first capture's object.
      C06_vm_read_write_open     ReadUpvalue / SetUpvalue through an open upvalue read / write the stack slot
                                 itself, the cell that ReadLocalVar / SetLocalVar of the enclosing function use.
      C06_vm_close_keeps_value,  CloseUpvalue k / Return: exactly the open upvalues with slot >= offset + k
@@ -331,7 +334,7 @@ Proof. vm_compute. reflexivity. Qed.
 (* The VM half: the open-upvalue list of the VM model                                         *)
 (* ========================================================================================== *)
 From Coq Require Import Sorted.
-From Cao Require Import Stacks Vm VmUpvalueProofs VmUpvalueStep VmUpvalueSem VmUpvalueWitness.
+From Cao Require Import Stacks Vm VmUpvalueProofs VmUpvalueStep VmUpvalueSem VmUpvalueFrame VmUpvalueWitness.
 
 (* [vm_ok s] (VmUpvalueProofs) spelled out.  [open_list s l]: following u_next from st_open visits exactly the
    nodes l = [(address, slot); ...] and ends at null. *)
@@ -418,6 +421,47 @@ Theorem C06_vm_register_shares :
                     hget (Vm.st_heap s') x = hget (Vm.st_heap s1) x)).
 Proof. exact register_shares. Qed.
 Print Assumptions C06_vm_register_shares.
+
+(* no other instruction touches the list: every instruction except CallNative (4), Return (22), RegisterUpvalue (45),
+   CloseUpvalue (46) - and CallFunction (11) when the popped callee is a native function value - leaves the head of
+   the list and the (slot, next) view of every upvalue object unchanged ([same_upvalues s s']: st_open s' = st_open s
+   and every object is an open upvalue of slot k with successor n in s' iff it is in s); so the open list is the same
+   list, open upvalues stay open at their slot, closed ones stay closed, none is created *)
+Theorem C06_vm_quiet_instructions :
+  forall F bld P reenter ip0 s,
+    ~ In (nth (N.to_nat ip0) (p_code P) 255%N) [4; 22; 45; 46]%N ->
+    (nth (N.to_nat ip0) (p_code P) 255%N = 11%N -> not_native_callee s) ->
+    vm_ok s ->
+    match step F bld P reenter ip0 s with
+    | SNext _ s' | SExit s' | SErr _ _ s' =>
+        vm_ok s' /\ same_upvalues s s' /\ (forall l, open_list s l -> open_list s' l)
+    | SStop _ _ => True
+    end.
+Proof.
+  intros F bld P re ip0 s Hq H11 Hs. pose proof (step_quiet_same_upvalues F bld P re ip0 s Hq H11 Hs) as H.
+  destruct (step F bld P re ip0 s); try exact H; destruct H as [A B]; (split; [exact A|]); (split; [exact B|]);
+    intros l Hl; eapply same_upvalues_open_list; eauto.
+Qed.
+Print Assumptions C06_vm_quiet_instructions.
+
+(* hence two closures that capture the same live local hold the same upvalue address: [ua] is the open upvalue of
+   slot [loc] in s' (for instance s' is the state after the RegisterUpvalue that created it, by
+   C06_vm_register_shares: ins_desc ua loc l contains (ua, loc)); t is reached from s' by instructions that leave
+   the upvalues alone (C06_vm_quiet_instructions; same_upvalues is transitive); a RegisterUpvalue in t for that slot
+   hands out [ua] again *)
+Theorem C06_vm_second_capture_shares :
+  forall F bld P reenter s' l' ua loc t ip0 index is_local t1 cb ch car cups off,
+    open_list s' l' -> In (ua, loc) l' ->
+    vm_ok t -> same_upvalues s' t ->
+    opcode_at P ip0 = 45%N ->
+    read_le (p_code P) (ip0 + 1) 1 = Some index -> read_le (p_code P) (ip0 + 1 + 1) 1 = Some is_local ->
+    is_local <> 0%N ->
+    spop t = (t1, VObj cb) -> hget (Vm.st_heap t1) cb = Some (OClo ch car cups) ->
+    top_offset t1 = Some off -> loc = off + N.to_nat index -> loc < scount t1 ->
+    step F bld P reenter ip0 t =
+    SNext (ip0 + 1 + 2) (set_heap t1 (hset (Vm.st_heap t1) cb (OClo ch car (cups ++ [ua])))).
+Proof. exact second_capture_shares. Qed.
+Print Assumptions C06_vm_second_capture_shares.
 
 (* ------------------------------------------------------------------------------------------ *)
 (* (b') an open upvalue is the stack slot                                                     *)
